@@ -357,7 +357,8 @@ func basePlans(tier string) []mc.Plan {
 	if tier == "thorough" {
 		wnames = append(wnames, "unary2")
 	}
-	cfgs := []wl.Config{{Pipe: tr.Options{Cap: -1}}, {Pipe: tr.Options{Cap: -1, ReadMax: 1}}}
+	// (the third one: every frame is its own transport write, issued while the frame is being buffered)
+	cfgs := []wl.Config{{Pipe: tr.Options{Cap: -1}}, {Pipe: tr.Options{Cap: -1, ReadMax: 1}}, {Pipe: tr.Options{Cap: -1}, SplitSize: 4, WriterBuf: 1}}
 	if tier == "thorough" {
 		cfgs = append(cfgs, wl.Config{Pipe: tr.Options{Cap: 0}}, wl.Config{Soft: true, Pipe: tr.Options{Cap: -1}, SplitSize: 3, WriterBuf: 1})
 	}
@@ -402,7 +403,7 @@ func basePlans(tier string) []mc.Plan {
 					for _, fl := range kinds {
 						fs := &fspec{end: p.end, fault: fl}
 						bounds := []int{0}
-						if cfg.Pipe.ReadMax == 0 {
+						if cfg.Pipe.ReadMax == 0 && (cfg.WriterBuf == 0 || tier == "thorough") {
 							bounds = []int{0, 1}
 						}
 						if tier == "thorough" && w == "unary" && cfg.Pipe.ReadMax == 0 && cfg.Pipe.Cap == -1 && !cfg.Soft && fl.Kind != tr.ErrAfter {
